@@ -72,12 +72,13 @@ type Focus struct {
 	ModSvcPct  int            // percent of cases with a module service
 	Boundary   int            // percent of cases allowed to draw numeric boundary values (known finding trigger)
 	PrefixProv int            // percent preference for prefix-related provider addresses
+	PreludePct int            // percent of cases that open with a productive prelude
 	Only20Pct  int            // percent of cases restricted to 20-byte addresses everywhere (avoids a listed finding's trigger)
 	only20     bool           // drawn per case
 }
 
 func FocusFor(prop string, tier string) Focus {
-	f := Focus{Prop: prop, MaxSteps: 32, W: map[string]int{}, WrongSign: 15, ModSvcPct: 15, Boundary: 0, PrefixProv: 20}
+	f := Focus{Prop: prop, MaxSteps: 32, W: map[string]int{}, WrongSign: 15, ModSvcPct: 15, Boundary: 0, PrefixProv: 20, PreludePct: 50}
 	if tier == "thorough" {
 		f.MaxSteps = 70
 	}
@@ -116,6 +117,7 @@ func FocusFor(prop string, tier string) Focus {
 		mul(3, KWithdraw)
 		mul(2, KSetWithdr, KRespond, KCall)
 		f.PrefixProv = 50
+		f.PreludePct = 75
 	case "C15":
 		mul(3, KDefine, KBind)
 		mul(2, KUpdateBind)
@@ -595,6 +597,62 @@ func (g *GenState) genKind(t *rapid.T, exclude map[string]bool) string {
 		x -= ws[i]
 	}
 	return KEndBlock
+}
+
+// GenPrelude draws a short productive opening (define, bind one to three providers with a
+// sufficient deposit, call them, end the block) so that a good share of the histories reaches
+// issued requests, responses and earnings. Every choice is still drawn through rapid.
+func (g *GenState) GenPrelude(t *rapid.T) []Action {
+	if !pct(t, "prelude", g.F.PreludePct) {
+		return nil
+	}
+	svc := pick(t, "pre_svc", ServiceNames)
+	acts := []Action{{Kind: KDefine, Signer: pick(t, "pre_author", Signers), Service: svc, Schemas: SchemasOK, Desc: "d"}}
+	n := pick(t, "pre_nprov", []int{1, 2, 3, 2})
+	owner := pick(t, "pre_owner", Signers[:2])
+	pool := []string{Signers[0], Signers[1], Signers[2], Signers[3]}
+	if !g.F.only20 && pct(t, "pre_prefix_provider", g.F.PrefixProv) {
+		pool = append([]string{NonSigners[0], NonSigners[2]}, pool...) // prefixes of signer 0 / signer 1
+	}
+	var provs []string
+	qos := uint64(1)
+	for i := 0; i < n && i < len(pool); i++ {
+		p := pool[i]
+		if pct(t, "pre_other_owner", 30) {
+			owner = pick(t, "pre_owner2", Signers[:3])
+		}
+		pricing := GenPricing(t, g.Snap.TimeNs)
+		base := int64(0)
+		if rp, err := ParseRefPricing(pricing); err == nil {
+			base = rp.Base
+		}
+		dep := g.Cfg.MinDepositFor(base) + pick(t, "pre_dep_extra", []int64{0, 1, 500})
+		if dep <= 0 {
+			dep = 1
+		}
+		acts = append(acts, Action{Kind: KBind, Signer: owner, Service: svc, Provider: p, Deposit: i64(dep), Pricing: pricing, QoS: qos, Options: "{}"})
+		provs = append(provs, p)
+	}
+	if pct(t, "pre_withdraw_addr", 30) {
+		acts = append(acts, Action{Kind: KSetWithdr, Signer: owner, Withdraw: pick(t, "pre_waddr", AllAddrs())})
+	}
+	timeout := pick(t, "pre_timeout", []int64{1, 2, g.Cfg.MaxTimeout})
+	if timeout > g.Cfg.MaxTimeout {
+		timeout = g.Cfg.MaxTimeout
+	}
+	call := Action{Kind: KCall, Signer: pick(t, "pre_consumer", Signers), Service: svc, Providers: provs, Input: InputOK,
+		FeeCap: i64(pick(t, "pre_cap", []int64{1e9, 1000, 10})), Timeout: timeout}
+	if pct(t, "pre_module", 20) {
+		call.Kind = KModCreate
+		call.Threshold = uint32(pick(t, "pre_threshold", []int{1, len(provs)}))
+	}
+	if pct(t, "pre_repeated", 55) {
+		call.Repeated = true
+		call.Freq = uint64(timeout) + uint64(pick(t, "pre_freq_extra", []int{0, 1, 3}))
+		call.Total = pick(t, "pre_total", []int64{2, 3, -1, 1})
+	}
+	acts = append(acts, call, Action{Kind: KEndBlock, DeltaNs: pick(t, "pre_delta", []int64{5e9, 1, 1e9})})
+	return acts
 }
 
 // GenAction draws the next action from the current world.
